@@ -14,10 +14,12 @@
 package main
 
 import (
+	"encoding/json"
 	"fmt"
 	"math/rand"
 	"os"
 	"strconv"
+	"strings"
 	"time"
 
 	"github.com/relex/gotils/logger"
@@ -124,18 +126,15 @@ func s1Cases(c *vkit.Ctx) []s1Case {
 			}
 		}
 	}
-	// 3 key fields: exhaustive in thorough; in quick, cubes over 5-letter sub-alphabets (125 tuples each)
+	// 3 key fields: the whole cube (1331 tuples) under every template; thorough adds a second order and sink count
 	for ti, tm := range templatesFor(3) {
-		if c.Quick() {
-			r := c.Rand("s1-cube", ti)
-			add(3, tm, subCube(r, 3, 5, alphabet), orders[(ti+1)%len(orders)], 1+ti%3)
-		} else {
-			add(3, tm, allTuples(3, alphabet), orders[ti%len(orders)], 1+ti%3)
-			add(3, tm, allTuples(3, alphabet), orders[(ti+2)%len(orders)], 1+(ti+1)%3)
+		add(3, tm, allTuples(3, alphabet), orders[(ti+1)%len(orders)], 1+ti%3)
+		if !c.Quick() {
+			add(3, tm, allTuples(3, alphabet), orders[(ti+3)%len(orders)], 1+(ti+1)%3)
 		}
 	}
 	// sampled: values outside the alphabet
-	for i := 0; i < c.N(6, 60); i++ {
+	for i := 0; i < c.N(6, 400); i++ {
 		r := c.Rand("s1-extras", i)
 		n := 1 + i%3
 		tms := templatesFor(n)
@@ -158,9 +157,10 @@ func s2Cases(c *vkit.Ctx) []s2Case {
 	}
 	// two key fields: the whole alphabet square (121 pipelines) in thorough; 6-letter squares in quick
 	if c.Quick() {
-		for i := 0; i < 3; i++ {
+		add(2, t2[0], allTuples(2, alphabet), "shuffled", 2, 0o022, "")
+		for i := 0; i < 2; i++ {
 			r := c.Rand("s2-square", i)
-			add(2, t2[[]int{0, 2, 4}[i]], subCube(r, 2, 6, alphabet), orders[(i+2)%4], 1+i%3, 0o022, "")
+			add(2, t2[[]int{2, 4}[i]], subCube(r, 2, 6, alphabet), orders[(i+2)%4], 1+i%3, 0o022, "")
 		}
 	} else {
 		for i, tm := range t2 {
@@ -168,12 +168,21 @@ func s2Cases(c *vkit.Ctx) []s2Case {
 		}
 	}
 	// three key fields: cubes over 3-letter sub-alphabets (27 pipelines each); thorough covers many sub-alphabets
-	for i := 0; i < c.N(2, 40); i++ {
+	for i := 0; i < c.N(4, 40); i++ {
 		r := c.Rand("s2-cube", i)
 		add(3, t3[i%len(t3)], subCube(r, 3, 3, alphabet), orders[i%4], 1+i%3, 0o022, "")
 	}
+	// every colliding family of the 3-field cube, whole families packed ~100 to a scenario: all packs in thorough, one
+	// (chosen by the seed) in quick
+	packs := familyPacks(3, 100)
+	for i, pk := range packs {
+		if c.Quick() && i != int(c.Seed%int64(len(packs))+int64(len(packs)))%len(packs) {
+			continue
+		}
+		add(3, t3[(i+1)%len(t3)], pk, orders[(i+1)%4], 1+i%3, 0o022, "/families")
+	}
 	// values outside the alphabet
-	for i := 0; i < c.N(2, 24); i++ {
+	for i := 0; i < c.N(3, 24); i++ {
 		r := c.Rand("s2-extras", i)
 		n := 1 + i%3
 		tms := templatesFor(n)
@@ -184,14 +193,82 @@ func s2Cases(c *vkit.Ctx) []s2Case {
 	add(2, t2[0], plain, "sorted", 1, 0o027, "/umask027")
 	add(2, t2[0], plain, "sorted", 1, 0o077, "/umask077")
 	add(2, t2[0], plain, "sorted", 1, 0o002, "/umask002")
+	// a key value longer than a file name may be: the queue directory name is derived from it
+	long := strings.Repeat("h", 250)
+	add(2, t2[0], []tuple{{long, "a"}, {long, "b"}, {"a", "b"}}, "sorted", 1, 0o022, "/longvalue")
 	return out
+}
+
+// replay re-runs exactly the case a replay file names (same seed and tier, hence the same draws) in a child process
+// built from the current tree, and says whether the same fingerprint shows again:
+//
+//	./check C06 quick --replay /verif/replays/C06/<fingerprint>.json
+func replay(path string) {
+	b, err := os.ReadFile(path)
+	if err != nil {
+		fmt.Println("REPLAY-ERROR", err)
+		os.Exit(2)
+	}
+	var rep struct {
+		Seed        int64  `json:"seed"`
+		Tier        string `json:"tier"`
+		Fingerprint string `json:"fingerprint"`
+		Witness     struct {
+			Stage int  `json:"stage"`
+			Index *int `json:"case_index"`
+		} `json:"witness"`
+	}
+	if err := json.Unmarshal(b, &rep); err != nil || rep.Witness.Index == nil || rep.Witness.Stage < 1 || rep.Witness.Stage > 3 {
+		fmt.Println("REPLAY-ERROR not a single-case C06 replay file (race reports are re-established by re-running the tier):", err)
+		os.Exit(2)
+	}
+	os.Setenv("VERIF_SEED", strconv.FormatInt(rep.Seed, 10))
+	os.Setenv("VERIF_TIER", rep.Tier)
+	c := vkit.Start("C06", "exploration")
+	mode := map[int]string{1: "s1one", 2: "s2", 3: "s3one"}[rep.Witness.Stage]
+	res := c.RunChild(vkit.ChildSpec{Mode: mode, Args: map[string]string{"idx": strconv.Itoa(*rep.Witness.Index)}, Timeout: 10 * time.Minute, Tag: "replay"})
+	reproduced := false
+	if res.Partial != nil {
+		for _, v := range res.Partial.Violations {
+			fmt.Printf("REPLAY finding %s: %s\n", v.Fingerprint, v.What)
+			if v.Fingerprint == rep.Fingerprint {
+				reproduced = true
+			}
+		}
+	} else {
+		fmt.Printf("REPLAY child did not finish: %s\n", res.CrashSummary())
+		reproduced = strings.HasPrefix(rep.Fingerprint, "s2:process-died")
+	}
+	c.Cleanup()
+	fmt.Printf("REPLAY property=C06 fingerprint=%s stage=%d case_index=%d reproduced=%v\n", rep.Fingerprint, rep.Witness.Stage, *rep.Witness.Index, reproduced)
+	if reproduced {
+		os.Exit(1)
+	}
+	os.Exit(0)
 }
 
 func main() {
 	logger.SetLogLevel(logger.FatalLevel)
+	if len(os.Args) >= 3 && os.Args[1] == "--replay" {
+		setDefs()
+		replay(os.Args[2])
+		return
+	}
 	c := vkit.Start("C06", "exploration")
 	setDefs()
 
+	if c.Child == "s1one" {
+		idx, _ := strconv.Atoi(c.Arg("idx"))
+		if cases := s1Cases(c); idx >= 0 && idx < len(cases) {
+			runS1(c, cases[idx])
+		}
+		c.Finish()
+	}
+	if c.Child == "s3one" {
+		idx, _ := strconv.Atoi(c.Arg("idx"))
+		runS3(c, idx)
+		c.Finish()
+	}
 	if c.Child == "s2" {
 		idx, _ := strconv.Atoi(c.Arg("idx"))
 		cases := s2Cases(c)
@@ -221,16 +298,14 @@ func main() {
 				"tuples": len(sc.tuples), "first_tuples": fmt.Sprint(sc.tuples[:min(4, len(sc.tuples))])})
 		}
 	}
-	if c.Quick() {
-		c.Exhaustive("stage 1: all 11 + 121 key tuples over the alphabet {\"\",a,b,ab,\",\",\"a,\",\",a\",\"a,b\",/,NUL,é} for 1 and 2 key fields, under every template")
-	} else {
+	{
 		c.Exhaustive("stage 1: all 11 + 121 + 1331 key tuples over the alphabet {\"\",a,b,ab,\",\",\"a,\",\",a\",\"a,b\",/,NUL,é} for 1, 2 and 3 key fields, under every template")
 	}
 	fmt.Fprintf(os.Stderr, "stage 1: %d cases in %.1fs\n", len(cases1), time.Since(t0).Seconds())
 
 	// ---- stage (iii)
 	t1 := time.Now()
-	for i := 0; i < c.N(400, 6000); i++ {
+	for i := 0; i < c.N(1500, 60000); i++ {
 		runS3(c, i)
 	}
 	fmt.Fprintf(os.Stderr, "stage 3: %.1fs\n", time.Since(t1).Seconds())
@@ -255,7 +330,7 @@ func main() {
 		case res.Crashed() || res.Partial == nil:
 			c.Violation("s2:process-died:"+res.CrashSite(),
 				fmt.Sprintf("%s: the process running the real pipeline died: %s", name, res.CrashSummary()),
-				map[string]any{"stage": 2, "case": res.LastCase, "tuples": fmt.Sprint(sc.tuples), "stderr_tail": tail(res.Stderr, 3000)})
+				map[string]any{"stage": 2, "case_index": i, "case": res.LastCase, "tuples": fmt.Sprint(sc.tuples), "stderr_tail": tail(res.Stderr, 3000)})
 		default:
 			c.Merge(*res.Partial)
 		}
@@ -272,6 +347,7 @@ func main() {
 	c.Require("s2_nontrivial_tuples", 20)
 	c.Require("s2_label_checks", 50)
 	c.Require("s3_operations", 1000)
+	c.Require("s3_operations_overlapped", 50)
 	c.JudgeRaces(anchored)
 	c.Finish()
 }
